@@ -75,7 +75,7 @@ func VerifC02_Dlarfg() {
 	verifReach("end")
 }
 
-// VerifC02_QRFamily: Dgeqr2/Dgeqrf (A = Q*R), Dgelq2/Dgelqf (A = L*Q),
+// verifC02qrFamily: Dgeqr2/Dgeqrf (A = Q*R), Dgelq2/Dgelqf (A = L*Q),
 // Dgerq2/Dgerqf (A = R*Q), Dgeql2 (A = Q*L) for the shapes in which every
 // generated reflector has order <= 2 (the order-3 generation is not decided by
 // z3): QR, QL: m <= 2, n <= 3; LQ, RQ: n <= 2, m <= 3.
@@ -83,8 +83,16 @@ func VerifC02_Dlarfg() {
 // product) is; Q^T applied to the input gives exactly the documented
 // triangular/trapezoidal part of the result and exact zeros elsewhere
 // (equivalent to A == Q*R etc. for orthogonal Q); padding is untouched.
-func VerifC02_QRFamily() {
-	routine := verifChoose("routine", 0, 6) // 0 Dgeqr2 1 Dgeqrf 2 Dgelq2 3 Dgelqf 4 Dgerq2 5 Dgerqf 6 Dgeql2
+//
+// One entry point per factorization (a combined harness makes the incremental
+// solver contexts markedly slower).
+func VerifC02_Dgeqr2QR() { verifC02qrFamily(0, 1) }
+func VerifC02_Dgelq2LQ() { verifC02qrFamily(2, 3) }
+func VerifC02_Dgerq2RQ() { verifC02qrFamily(4, 5) }
+func VerifC02_Dgeql2QL() { verifC02qrFamily(6, 6) }
+
+func verifC02qrFamily(rmin, rmax int) {
+	routine := verifChoose("routine", rmin, rmax) // 0 Dgeqr2 1 Dgeqrf 2 Dgelq2 3 Dgelqf 4 Dgerq2 5 Dgerqf 6 Dgeql2
 	big := verifParam("qrbig", 3)
 	// lwork of the blocked drivers: the documented minimum (qrlw=0) or
 	// minimum / minimum+1 / generous (qrlw=1); the independence of lwork is the
